@@ -9,6 +9,7 @@ One mutation from an ARBITRARY architecture inside its declared bounds (inductiv
 """
 from __future__ import annotations
 
+import copy
 import math
 
 import numpy as np
@@ -523,6 +524,101 @@ class ScalarArchMutation(Case):
         return res
 
 
+import agilerl.modules.multi_input as mi_mod
+from agilerl.modules.multi_input import EvolvableMultiInput
+
+
+class MultiInputMutation(Case):
+    """EvolvableMultiInput.add_latent_node / remove_latent_node, fresh or AFTER a mutation of a nested feature extractor:
+    the latent width obeys its bounds, and what recreate_network builds the nested extractors from (get_inner_init_dict) is
+    their CURRENT architecture with the new latent width - an earlier nested mutation is not undone"""
+    functions = (EvolvableMultiInput.add_latent_node, EvolvableMultiInput.remove_latent_node, EvolvableMultiInput.get_inner_init_dict, EvolvableMultiInput.recreate_network)
+    stubs = ("np.random of agilerl.modules.multi_input -> arbitrary draws within the documented ranges",
+             "recreate_network = recorder in the symbolic modes (the latent width is a proxy); the real one runs in replay/validation, followed by a forward pass")
+    assumptions = ("pre-state inside its declared bounds: min_latent_dim <= latent_dim <= max_latent_dim, min < max; explicit argument >= 1",)
+    outside = ("rebuildability for symbolic widths (real layers need concrete sizes; exercised on the replayed models only)",)
+
+    def __init__(self, method, given, nested):
+        self.method, self.given, self.nested = method, given, nested
+        self.name = f"multi-input-{method}-{'args' if given else 'random'}" + ("-after-nested-mutation" if nested else "")
+        self.site = f"EvolvableMultiInput.{method}"
+        self.bounds = {"observation": "Dict(image 1x8x8, vector 3)", "history": "a channel added to the nested CNN first" if nested else "fresh",
+                       "symbolic": "latent_dim, its minimum and maximum, the argument or the random draw"}
+
+    def build(self, latent=16, lo=8, hi=128):
+        sp = spaces.Dict({"img": spaces.Box(0, 1, (1, 8, 8), dtype=np.float32), "vec": spaces.Box(-1, 1, (3,), dtype=np.float32)})
+        return EvolvableMultiInput(sp, 4, latent_dim=latent, min_latent_dim=lo, max_latent_dim=hi,
+                                   cnn_config={"channel_size": [2], "kernel_size": [3], "stride_size": [1]}, vector_space_mlp=False)
+
+    def run(self, v):
+        ld, lo, hi = v.int("latent_dim"), v.int("min_latent_dim"), v.int("max_latent_dim")
+        v.assume(conj(lo >= 1, lo < hi, ld >= lo, ld <= hi))
+        args = {}
+        if self.given:
+            n = v.int("n")
+            v.assume(n >= 1)
+            args = {"numb_new_nodes": n}
+        rng = Rng(v)
+        torch.manual_seed(3)
+        try:
+            if v.mode == "real":
+                m = self.build(ld, lo, hi)
+            else:
+                m = self.build()
+        except (AssertionError, RuntimeError, ValueError) as ex:
+            if v.mode == "real":
+                raise AssumptionFailed(f"constructor rejects the configuration: {ex}")
+            raise HarnessError(f"could not build EvolvableMultiInput: {ex}")
+        require(m, "latent_dim", "min_latent_dim", "max_latent_dim", "feature_net", "get_inner_init_dict", "recreate_network", "last_mutation_attr")
+        if self.nested:
+            m.feature_net["img"].add_channel(hidden_layer=0, numb_new_channels=2)       # a real mutation of the nested CNN (concrete)
+        arch0 = {k: copy.deepcopy(net.init_dict) for k, net in m.feature_net.modules().items()}
+        if self.nested and list(arch0["img"]["channel_size"]) != [4]:
+            raise HarnessError(f"nested mutation did not apply: {arch0['img']['channel_size']}")
+        if v.mode != "real":
+            m.latent_dim, m.min_latent_dim, m.max_latent_dim = ld, lo, hi
+            rec = Counting()
+        else:
+            rec = Counting(m.recreate_network)
+        with patched((mi_mod, "np", ShimNumpy({"random": rng})), (m, "recreate_network", rec)):
+            getattr(m, self.method)(**args)
+        l2 = m.latent_dim
+        n = args.get("numb_new_nodes") if self.given else ([e[2] for e in rng.log if e[0] == "choice"] or [None])[-1]
+        res = [Ob("recreate_network-called-exactly-once", len(rec.calls) == 1),
+               Ob("latent-width-within-bounds", conj(l2 >= lo, l2 <= hi), site=self.site + "/bounds"),
+               Ob("last_mutation_attr-names-the-method", m.last_mutation_attr == self.method)]
+        if n is None:
+            res.append(Ob("draws-a-count", False))
+        else:
+            new = ld + n if self.method == "add_latent_node" else ld - n
+            inside = lt(new, hi) if self.method == "add_latent_node" else gt(new, lo)
+            res.append(Ob("applied-exactly-when-strictly-inside-the-bound", disj(neg(inside), eq(l2, new)), site=self.site + "/effect"))
+            res.append(Ob("width-is-old-or-advertised-new", disj(eq(l2, ld), eq(l2, new)), site=self.site + "/effect"))
+        # what the rebuild takes for the nested extractors
+        for key in arch0:
+            d = m.get_inner_init_dict(key, "cnn")
+            for field in ("channel_size", "kernel_size", "stride_size", "hidden_size"):
+                if field in arch0[key]:
+                    res.append(Ob(f"{key}/rebuild-uses-the-current-{field}", list(d.get(field, [])) == list(arch0[key][field]), site="EvolvableMultiInput.get_inner_init_dict/nested-architecture"))
+            res.append(Ob(f"{key}/rebuild-uses-the-new-latent-width", eq(d["num_outputs"], l2), site="EvolvableMultiInput.get_inner_init_dict/latent-width"))
+        if v.mode == "real":
+            x = {"img": torch.zeros(2, 1, 8, 8), "vec": torch.zeros(2, 3)}
+            ok = forward_ok_dict(m, x, 4)
+            still = all(list(net.init_dict.get("channel_size", [])) == list(arch0[k].get("channel_size", [])) for k, net in m.feature_net.modules().items())
+            res.append(Ob("network-rebuilds-keeps-the-nested-architecture-and-maps-a-batch-to-finite-outputs-of-its-shape", ok and still, site=self.site + "/rebuild"))
+        else:
+            res.append(Ob("network-rebuilds-keeps-the-nested-architecture-and-maps-a-batch-to-finite-outputs-of-its-shape", True, site=self.site + "/rebuild"))
+        if self.method == "add_latent_node":
+            res.append(Ob("twin/never-widens", eq(l2, ld), expect="sat"))
+        return res
+
+
+def forward_ok_dict(module, x, out_dim):
+    with torch.no_grad():
+        y = module(x)
+    return tuple(y.shape) == (2, out_dim) and bool(torch.isfinite(y).all())
+
+
 _cases_mlp_cnn = cases
 
 
@@ -533,4 +629,7 @@ def cases(tier):   # noqa: F811
                ScalarArchMutation(block, "narrow", True)]
         if tier == "thorough":
             cs += [ScalarArchMutation(block, "wide", False), ScalarArchMutation(block, "narrow", False)]
+    cs += [MultiInputMutation("add_latent_node", True, False), MultiInputMutation("add_latent_node", False, True), MultiInputMutation("remove_latent_node", True, True)]
+    if tier == "thorough":
+        cs += [MultiInputMutation("remove_latent_node", False, False), MultiInputMutation("add_latent_node", True, True)]
     return cs
